@@ -1,4 +1,61 @@
 import OsloModel.Proto
+import OsloModel.Specs
+open Oslo Oslo.Specs Oslo.Proto
 
--- stub: replaced by the real driver of this property group
-def main : IO Unit := Oslo.Proto.serve (fun _ => "bad-request")
+/-
+Requests
+  match  <hex value> <hex spec>      -> <tree> TAB <outcome>
+      tree    = PE | hex,hex,…      (tokens of the prefix parse)
+      outcome = ok:1 | ok:0 | ValueError | TypeError | KeyError | IndexError | unmodelled
+  float  <hex text>                  -> num:<n>/<d> | inf | -inf | nan | ValueError | unmodelled
+  lit    <hex text>                  -> unmodelled | item:<i> | list:<i>,<i>,…   (i = s<hex> | n<n>/<d>)
+-/
+
+def showOutcome : Outcome → String
+  | .ok true => "ok:1"
+  | .ok false => "ok:0"
+  | .err .valueError => "ValueError"
+  | .err .typeError => "TypeError"
+  | .err .keyError => "KeyError"
+  | .err .indexError => "IndexError"
+  | .unmodelled => "unmodelled"
+
+def showTree : Option (List Str) → String
+  | none => "PE"
+  | some toks => String.intercalate "," (toks.map hexChars)
+
+def showRat (q : Rat) : String := s!"{q.num}/{q.den}"
+
+def showFloat : FloatRes → String
+  | .num (.fin q) => "num:" ++ showRat q
+  | .num (.inf false) => "inf"
+  | .num (.inf true) => "-inf"
+  | .num .nan => "nan"
+  | .valueError => "ValueError"
+  | .unmodelled => "unmodelled"
+
+def showItem : Item → String
+  | .str s => "s" ++ hexChars s
+  | .num q => "n" ++ showRat q
+
+def showLit : Option LitVal → String
+  | none => "unmodelled"
+  | some (.item i) => "item:" ++ showItem i
+  | some (.list l) => "list:" ++ String.intercalate "," (l.map showItem)
+
+def handle : List String → String
+  | ["match", v, spec] =>
+    match unhexChars v, unhexChars spec with
+    | some v, some spec => showTree (parse spec) ++ "\t" ++ showOutcome (matchSpec v spec)
+    | _, _ => "bad-request"
+  | ["float", t] =>
+    match unhexChars t with
+    | some t => showFloat (pyFloat t)
+    | none => "bad-request"
+  | ["lit", t] =>
+    match unhexChars t with
+    | some t => showLit (pyLiteral t)
+    | none => "bad-request"
+  | _ => "bad-request"
+
+def main : IO Unit := serve handle
